@@ -194,12 +194,52 @@ def run_variant(repo, v, prop):
         shutil.rmtree(tmp, ignore_errors=True)
 
 
+def seeded_for(prop):
+    """Independent mutants kept under seeded/: the ones this property's check is recorded to report must keep being reported."""
+    import json
+    root = os.path.join(VERIF, "seeded")
+    out = []
+    if not os.path.isdir(root):
+        return out
+    for sid in sorted(os.listdir(root)):
+        mp = os.path.join(root, sid, "meta.json")
+        pp = os.path.join(root, sid, "patch.diff")
+        if os.path.exists(mp) and os.path.exists(pp):
+            try:
+                meta = json.load(open(mp))
+            except ValueError:
+                continue
+            if prop in meta.get("checks_fired", []):
+                out.append(dict(id="seeded/" + sid, props=[prop], kind="break", patch=pp, expect=None))
+    return out
+
+
+def run_seeded(repo, v, prop):
+    tmp = tempfile.mkdtemp(prefix="gsverif-seeded-")
+    try:
+        shutil.copytree(os.path.join(repo, "graphslam"), os.path.join(tmp, "graphslam"), ignore=shutil.ignore_patterns("__pycache__"))
+        r = subprocess.run(["patch", "-p1", "-s", "--no-backup-if-mismatch", "-i", v["patch"]], cwd=tmp, capture_output=True, text=True)
+        if r.returncode:
+            return dict(id=v["id"], prop=prop, kind="break", status="skipped", detail="patch does not apply to the analysed tree")
+        py = "/venv/bin/python" if os.path.exists("/venv/bin/python") else sys.executable
+        r = subprocess.run([py, "-B", "-m", "gsverif.cli", prop, "--tier", "quick", "--repo", tmp, "--no-evidence"],
+                           cwd=VERIF, capture_output=True, text=True, timeout=900)
+        fired = r.returncode == 1 and "VIOLATION property=%s" % prop in r.stdout
+        tail = "\n".join(l for l in r.stdout.splitlines() if l.startswith(("  rule=", "ANALYSIS-ERROR")))[:400]
+        return dict(id=v["id"], prop=prop, kind="break", status="fired" if fired else "MISSED", exit=r.returncode, detail=tail)
+    finally:
+        shutil.rmtree(tmp, ignore_errors=True)
+
+
 def run_for_property(repo, prop, jobs=8):
     todo = [v for v in CATALOGUE if prop in v["props"]]
-    if not todo:
+    seeded = seeded_for(prop)
+    if not todo and not seeded:
         return []
-    with ThreadPoolExecutor(max_workers=min(jobs, len(todo))) as ex:
-        return list(ex.map(lambda v: run_variant(repo, v, prop), todo))
+    with ThreadPoolExecutor(max_workers=jobs) as ex:
+        a = list(ex.map(lambda v: run_variant(repo, v, prop), todo))
+        b = list(ex.map(lambda v: run_seeded(repo, v, prop), seeded))
+    return a + b
 
 
 def selftest_into(run_, repo, prop):
